@@ -71,14 +71,17 @@ Toks(cfg) == LET d1 == Dev1({Base(cfg)})  d2 == Dev1(d1) IN IF Depth = 2 THEN d2
 
 \* thorough: depth-3 deviations only around the default configuration and its single-dimension deviations
 BaseCfg == [offset |-> 1, maxIAT |-> 30, maxAge |-> 60, nonce |-> "n1", acr |-> "allowed", via |-> "direct", prior |-> "none"]
-NearCfgs == {BaseCfg} \cup UNION {{[BaseCfg EXCEPT ![f] = v] : v \in CfgDims[f]} : f \in DOMAIN CfgDims}
-              \cup {[offset |-> 1, maxIAT |-> 0, maxAge |-> 0, nonce |-> "default", acr |-> "nil", via |-> "direct", prior |-> "none"]}
+\* thorough: depth-3 deviations around the default configuration, three of its single-dimension deviations and the all-off configuration
+\* (depth 3 around every near configuration is 730 k cases, which the trace monitor does not digest in reasonable time)
+NearCfgs == {BaseCfg, [BaseCfg EXCEPT !.offset = 10], [BaseCfg EXCEPT !.maxIAT = 0], [BaseCfg EXCEPT !.nonce = "default"],
+             [offset |-> 1, maxIAT |-> 0, maxAge |-> 0, nonce |-> "default", acr |-> "nil", via |-> "direct", prior |-> "none"]}
 
 Groups == Cfgs
 CasesOf(cfg) ==
   LET d1 == Dev1({Base(cfg)})  d2 == Dev1(d1)
       \* verifiers obtained through the relying-party constructor: the single-dimension deviations (quick), two (thorough)
-      ts == IF cfg.via # "direct" \/ cfg.prior # "none" THEN (IF Tier = "quick" THEN d1 ELSE d2)
+      near == [cfg EXCEPT !.via = "direct", !.prior = "none"] \in NearCfgs
+      ts == IF cfg.via # "direct" \/ cfg.prior # "none" THEN (IF Tier = "quick" \/ ~near THEN d1 ELSE d2)
             ELSE IF Tier = "quick" \/ cfg \notin NearCfgs THEN d2 ELSE Dev1(d2)
       \* a token response always delivers the access token next to the ID token
       us == IF cfg.via \in {"rpRefresh", "rpExchange"} THEN {t \in ts : t.withAT} ELSE ts IN
